@@ -23,6 +23,10 @@ func checkC13(w *World, r *Report) {
 	r.Rule("R13.4", "close is identity-checked", 1)
 	r.Rule("R13.5", "session tables cover every identifier the wire format can carry", 2)
 	r.Rule("R13.6", "the client adopts a session identifier only from an error-free version answer", 1)
+	r.Rule("R13.12", "a session holds no pointer into the listener object: per-session codec options are copies", 1)
+	c12SessionsShareNoListenerState(w, r, "R13.12")
+	r.Rule("R13.11", "a new session is stored into the live table only at an index whose live entry was just found empty", 1)
+	c13NewSessionTakesEmptySlotOnly(w, r)
 	r.Rule("R13.10", "the session identifier is decoded in arithmetic wide enough for every identifier the server hands out (no 8-bit arithmetic widened afterwards)", 1)
 	ruleNoNarrowArithmeticBeforeWidening(w, r, "R13.10", []*ssa.Function{w.SSAFunc(w.Func("internal/streams/dns/commands", "DecodeRequestHeader"))}, ": identifiers above 255 come back as their residue — the peer of session 256+k is validated against, writes into, reads from and can close session k")
 	r.Rule("R13.9", "a retired session's record decides an answer only where the live slot is empty (identifiers are reused)", 1)
